@@ -258,7 +258,7 @@ impl Scenario for DigestStream {
         ScenarioInfo {
             property: "C13",
             name: "digest-stream",
-            rule: "one case = one seeded feeding schedule over 1-3 live sinks of kind Sha256r / Sha256d / Hash160 / Hmac<each>: a message (lengths biased to every padding and block boundary, up to 1 KiB quick / 64 KiB thorough) is cut by one of six fragmentation policies into digest::Update::update / digest::Digest::update calls (the adapters' io::Write impl is compiled out: digest::impl_write! is gated on a `std` feature bsv does not define), with clone-forks, reverse(), reset and four finishing calls (finalize_fixed, finalize_fixed_reset, finalize_into_reset, Mac::finalize / finalize_reset) placed mid-stream, plus one-shot Hash::* / Hash::*_hmac / KDF::pbkdf2 calls; non-trivial = more than one fragment reached a sink or a fork/reset happened while bytes were in flight; distinct = distinct fingerprint of the (sink, call kind, fragment-length class) sequence",
+            rule: "one case = one seeded feeding schedule over 1-3 live sinks of kind Sha256r / Sha256d / Hash160 / Hmac<each>: a message (lengths biased to every padding and block boundary, up to 1 KiB quick / 64 KiB thorough, rarely 65 535 - 131 073 bytes) is cut by one of eight write patterns (1-byte dribble, block-aligned, cut at a padding/block boundary, random, zero-length fragments interleaved, pieces ending on/before/after block edges, small writes filling exactly one or two blocks followed by a bulk write, one-shot) into digest::Update::update / digest::Digest::update / digest::Digest::chain calls (the adapters' io::Write impl is compiled out: digest::impl_write! is gated on a `std` feature bsv does not define), with clone-forks, reverse(), reset and the finishing calls (FixedOutput::finalize_fixed / finalize_fixed_reset / finalize_into_reset, Digest::finalize / finalize_reset, Mac::finalize / finalize_reset) placed mid-stream, plus one-shot Hash::* / Hash::*_hmac / KDF::pbkdf2 (1 - 65 537 rounds, outputs up to 257 hash blocks, salt given or drawn from the scripted entropy seam) / ExtendedPrivateKey::from_mnemonic calls; non-trivial = more than one fragment reached a sink or a fork/reset happened while bytes were in flight; distinct = distinct fingerprint of the (sink, call kind, fragment-length class) sequence",
             abstract_state: "(sink kind, bytes-in-flight bucket modulo the block size, reversed?, forked?, call kind)",
             real: &["bsv::Sha256r / Sha256d / Hash160 through digest::{Update, Reset, FixedOutput, FixedOutputDirty}, Clone and ReversibleDigest", "hmac::Hmac over the three adapters (the composition Hash::*_hmac and RFC 6979 use)", "bsv::Hash::{sha_1, sha_256, sha_256d, sha_512, ripemd_160, hash_160} and their *_hmac variants", "bsv::KDF::pbkdf2 (SHA-1/256/512)"],
             stub: &["model = bytes accepted since the last reset, hashed one-shot by sha2 / sha-1 / ripemd160 directly", "textbook RFC 2104 HMAC and RFC 8018 PBKDF2 over those primitives (reference-model oracles without a schedule dimension of their own)"],
